@@ -75,7 +75,7 @@ uint64_t time64_now(void) { return 0; }
 	A(uint16_t, fst, NF) A(uint8_t, stale, 8) S(uint32_t, taint) S(int32_t, T) S(uint8_t, f) S(int32_t, d_off) \
 	S(uint8_t, b_res) S(uint8_t, b_nrq) A(uint8_t, b_rq, NF) S(uint8_t, b_ntq) A(uint8_t, b_tq, NF)             \
 	S(uint8_t, b_np) A(uint8_t, b_pend, QD) S(uint8_t, b_rcv) A(uint32_t, b_off, NF) S(uint16_t, b_priv)       \
-	A(uint32_t, b_due, NF) S(uint32_t, b_taint) A(uint8_t, e_m, 12) A(uint8_t, e_f, 4) S(uint8_t, e_junk)
+	A(uint32_t, b_due, NF) S(uint32_t, b_taint) A(uint8_t, e_m, 12) A(uint8_t, e_f, 12) S(uint8_t, e_junk)
 VERIF_INPUTS(IN_FIELDS)
 
 struct S {
@@ -794,6 +794,9 @@ void h_cmp(void)
 #ifndef AMAX
 #define AMAX 2
 #endif
+#ifndef IRQ_BURST
+#define IRQ_BURST 2 /* requests that may arrive at one interruption point */
+#endif
 static bool irq_on;
 static unsigned env_calls, arrivals, handled, released, n_empty_checks;
 static uint8_t arr_log[AMAX + 1];
@@ -808,14 +811,14 @@ static void irq_arrivals(void)
 {
 	unsigned k = env_calls < 12 ? env_calls : 11;
 	env_calls++;
-	unsigned m = IN.e_m[k] & 3;
-	for (unsigned j = 0; j < 2; j++) {
+	unsigned m = IN.e_m[k] % (IRQ_BURST + 1);
+	for (unsigned j = 0; j < IRQ_BURST; j++) {
 		if (j >= m || arrivals >= AMAX)
 			continue;
 		messageq_t *q = &kernel.atomic_runq;
 		if (q->num_free.v > 0) {
 			unsigned slot = q->sendp.v;
-			uint8_t x = IN.e_f[arrivals] % NF;
+			uint8_t x = IN.e_f[arrivals < 12 ? arrivals : 11] % NF;
 			atomic_runq_buf[slot] = &F[x];
 			q->full_flags.v |= 1u << slot;
 			q->sendp.v = (unsigned char)((slot + 1) % QD);
@@ -828,11 +831,18 @@ static void irq_arrivals(void)
 	}
 }
 
+static bool step_mode;
+static unsigned recv_attempts;
+static void step_loop_head(void);
+
 void verif_env(const void *obj, enum verif_op op, memory_order mo)
 {
-	(void)obj; (void)op; (void)mo;
-	if (irq_on)
-		irq_arrivals();
+	(void)mo;
+	if (!irq_on)
+		return;
+	if (step_mode && obj == &kernel.atomic_runq.full_flags && op == VOP_FETCH_AND && recv_attempts++ == 1)
+		step_loop_head(); /* back at the head of the drain loop after one complete iteration: loop-cut rule (P7) */
+	irq_arrivals();
 }
 
 void verif_post(const void *obj, enum verif_op op, memory_order mo, unsigned long long oldv, unsigned long long newv)
@@ -919,6 +929,50 @@ void h_irq_drain(void)
 	VCOVER(arrivals == AMAX && handled == S0.np + AMAX, "requests arriving during the drain are handled by it");
 	VCOVER(arrivals == AMAX && handled == S0.np && S0.np >= 1, "requests arriving after the last receive stay pending");
 	VCOVER(S0.np >= 1 && arrivals >= 1 && arr_log[0] == S0.pend[0], "the same fibre requested before and during the drain");
+}
+
+/* L2 without a bound on arrivals or iterations: ONE iteration of the drain loop from an arbitrary invariant state (any
+ * number of requests pending, up to the queue's capacity; any number arriving at every interruption point, up to capacity).
+ * The state at the loop head after the iteration is again an invariant state, related to the pre-state by "the oldest
+ * pending request was made runnable from its own payload, everything else is still pending in order" - so the loop as a
+ * whole satisfies the contract used by handle_atomic_runq_irq_contract by induction over iterations (partial correctness:
+ * with requests arriving for ever the loop need not terminate). */
+static void step_check(unsigned expect_handled, const char *unused)
+{
+	(void)unused;
+	struct S want = S0, got;
+	VASSERT(handled == expect_handled, "C06 one iteration of the drain loop handles exactly one request, and the loop ends only when none is pending");
+	s_irq_drain(&want, handled);
+	want.taint = S0.taint | (ATOM(kernel.taint_flags) & 1u);
+	bool ok = absS(&got);
+	VASSERT(ok, "C06 the scheduler's own queues are never corrupted by the interruption (loop-head invariant of the drain loop)");
+	VASSERT(!ok || eq_runq(&got, &want), "C06 the oldest pending request is made runnable, exactly once, from the payload it was posted with (read before the slot is released)");
+	VASSERT(!ok || eq_timerq(&got, &want), "C06 a fibre woken from interrupt context loses its pending timeout");
+	VASSERT(!ok || eq_pend(&got, &want), "C06 every other request, including those that arrive during the iteration, is still pending afterwards, in order of arrival");
+	VASSERT(!ok || (eq_fibres(&got, &want) && eq_kernel(&got, &want)), "C06 the drain loop changes nothing else");
+}
+
+static void step_loop_head(void)
+{
+	step_check(1, "");
+	VCOVER(arrivals >= 3, "a burst of requests arrived during the iteration");
+	VCOVER(S0.np == QD, "the queue was full when the iteration started");
+	VASSUME(0);
+}
+
+void h_irq_drain_step(void)
+{
+	load_state(&S0, false);
+	irq_reset();
+	step_mode = true;
+	recv_attempts = 0;
+	irq_on = true;
+	handle_atomic_runq();
+	irq_on = false;
+	step_mode = false;
+	/* only reached when the very first receive found nothing pending */
+	step_check(0, "");
+	VCOVER(arrivals >= 1, "requests arrive just after the loop saw an empty queue: they stay pending");
 }
 
 /* contract of handle_atomic_runq under interruption, as established by h_irq_drain: handles everything present when it
@@ -1063,7 +1117,7 @@ void h_irq_eventq_send(void)
 	VCOVER(res && arrivals >= 1, "interrupt between publish and wake-up");
 	VCOVER(eslot == 3, "event in the last slot of its ring");
 }
-#define IRQ_ENTRIES E(h_irq_drain) E(h_irq_next) E(h_irq_run_atomic) E(h_irq_eventq_send)
+#define IRQ_ENTRIES E(h_irq_drain) E(h_irq_drain_step) E(h_irq_next) E(h_irq_run_atomic) E(h_irq_eventq_send)
 #else
 #define IRQ_ENTRIES
 #endif /* C06_IRQ */
